@@ -16,12 +16,20 @@ from common import (unique, Machinery, run_tlc, need_ok, run_cases, scratch,
 # ---------------------------------------------------------------------------
 # typed-field serialiser (knows field types, not formats) and record walker
 # ---------------------------------------------------------------------------
-def serialise(recs):
+def serialise(recs, cfg=None):
     out = []
     for rec in recs:
         payload = b''
         for fld in rec:
-            if fld['t'] == 'i':
+            if fld['t'] == 'g':
+                # compact data slab: ny * nx floats by the token rule
+                ny, nx = cfg['ny'], cfg['nx']
+                j = np.arange(1, ny + 1)[:, None]
+                i = np.arange(1, nx + 1)[None, :]
+                tok = ((((fld['s'] * 5 + fld['tt']) * 5 + fld['k']) * 5 + j)
+                       * 5 + i)
+                payload += tok.astype('>f4').tobytes()
+            elif fld['t'] == 'i':
                 payload += struct.pack('>i', int(fld['v']))
             elif fld['t'] == 'f':
                 payload += struct.pack('>f', float(fld['v']))
@@ -175,7 +183,7 @@ def case_encode_read(arg):
     tmp = scratch('camxB')
     try:
         path = os.path.join(tmp, 'ref.%s' % cfg['fmt'])
-        data = serialise(item['recs'])
+        data = serialise(item['recs'], cfg)
         with open(path, 'wb') as fo:
             fo.write(data)
         tr = {'tid': tid, 'kind': 'enc_read', 'cfg': cfg, 'names': names,
@@ -279,7 +287,7 @@ def case_cuts(arg):
                 fo.write(data[:n])
             o = {'n': n, 'k': 'Err', 'steps': 0, 'data': [], 'dataok': True,
                  'tflag': []}
-            signal.setitimer(signal.ITIMER_REAL, 2.0)
+            signal.setitimer(signal.ITIMER_REAL, 15.0)
             try:
                 g = cls(path)
                 p = present(g, names)
@@ -298,6 +306,75 @@ def case_cuts(arg):
             os.remove(path)
         return {'tid': tid, 'kind': 'cuts', 'cfg': cfg, 'names': names,
                 'reader': rname, 'obs': obs}
+    finally:
+        signal.signal(signal.SIGALRM, old)
+        shutil.rmtree(tmp, ignore_errors=True)
+
+
+def case_bigcuts(arg):
+    """C14 on a file of realistic size: cuts around every step boundary, in
+    read-only and update mode; exposed data are sampled at fixed cells."""
+    import warnings
+    warnings.simplefilter('ignore')
+    import signal
+    tid, item = arg
+    cfg = item['cfg']
+    names = spcnames(cfg)
+    tmp = scratch('camxBig')
+    data = serialise(item['recs'], cfg)
+    cls = readers(cfg['fmt'])['memmap']
+    H, B, nt = item['header'], item['block'], cfg['nt']
+    cuts = sorted(set(H + k * B + d for k in range(1, nt + 1)
+                      for d in (-48, -16, -8, -4, 0, 4, 8)
+                      if 0 < H + k * B + d <= len(data)))
+    obs = []
+
+    class Hang(Exception):
+        pass
+
+    def onalarm(sig, frm):
+        raise Hang()
+    old = signal.signal(signal.SIGALRM, onalarm)
+    ny, nx, nz = cfg['ny'], cfg['nx'], cfg['nz']
+    cells = [(0, 0), (0, 1), (ny - 1, nx - 2), (ny - 1, nx - 1)]
+    try:
+        for n in cuts:
+            for mode in ('r', 'r+'):
+                path = os.path.join(tmp, 'cut')
+                with open(path, 'wb') as fo:
+                    fo.write(data[:n])
+                o = {'n': n, 'mode': mode, 'k': 'Err', 'steps': 0,
+                     'samples': []}
+                signal.setitimer(signal.ITIMER_REAL, 60.0)
+                try:
+                    g = cls(path, mode=mode)
+                    o['k'] = 'Steps'
+                    o['steps'] = int(len(g.dimensions['TSTEP']))
+                    for t in sorted(set([0, o['steps'] - 1])):
+                        if t < 0:
+                            continue
+                        for s_, name in enumerate(names):
+                            v = g.variables[name]
+                            for k in range(nz):
+                                for (j, i) in cells:
+                                    x = float(v[t, k, j, i])
+                                    ok = x == int(x) and abs(x) < 2e9
+                                    o['samples'].append(
+                                        [s_ + 1, t + 1, k + 1, j + 1, i + 1,
+                                         int(x) if ok else 0, bool(ok)])
+                    del g
+                except Hang:
+                    o['k'] = 'Hang'
+                except Exception as ex:
+                    o['exc'] = type(ex).__name__
+                finally:
+                    signal.setitimer(signal.ITIMER_REAL, 0)
+                o['size_after'] = os.path.getsize(path)
+                obs.append(o)
+                os.remove(path)
+        return {'tid': tid, 'kind': 'bigcuts', 'cfg': cfg, 'names': names,
+                'reader': 'memmap', 'nbytes': len(data),
+                'expbytes': item['bytes'], 'obs': obs}
     finally:
         signal.signal(signal.SIGALRM, old)
         shutil.rmtree(tmp, ignore_errors=True)
